@@ -12,6 +12,8 @@ CONSTANTS Family = "clique"
           MaxStored = 14
           MaxLen = 9
           EmitOn = FALSE
+          Sprint = 0
+          SpanEnd = 0
           TwoBranch = FALSE
           TraceLen = 16
 \* CliqueFixed = FALSE reproduces the two deviations repaired in /repo by the commits 6966a3f and e66d2a4 (then PropC29 is violated in the model)
